@@ -113,3 +113,46 @@ def newargs(ctx: Ctx, rep: Report) -> None:
             'or copied to another process', key='newargs',
         )
     rep.floor(R, n, 2, 'classes with __new__(cls, ..., **kwargs)')
+
+
+def cachekey(ctx: Ctx, rep: Report) -> None:
+    """CACHEKEY: instances of a CachedClass are compared by identity (the
+    cached gate classes define no structural __eq__), so "equal gates are
+    equal" rests entirely on the cache key.  A key built from the literal
+    `(args, kwargs)` of the call distinguishes spellings of one parameter
+    set - `HGate()` / `HGate(2)` / `HGate(radix=2)` - and the gates compare
+    unequal.  `CachedClass.__new__` must bind the arguments to the
+    constructor's signature and apply the defaults before it builds the
+    key."""
+    K = 'CACHEKEY'
+    c = ctx.index.cls('bqskit/utils/cachedclass.py:CachedClass')
+    new = c.methods['__new__']
+    rep.seen(new.qualname)
+    rep.count()
+    calls = {norm(k.func).rsplit('.', 1)[-1]
+             for k in ast.walk(new.node) if isinstance(k, ast.Call)}
+    keyed = [
+        s for s in ast.walk(new.node) if isinstance(s, ast.Assign)
+        and any(isinstance(t, ast.Name) and t.id == 'key' for t in s.targets)
+    ]
+    bound_key = any('arguments' in norm(s.value) for s in keyed)
+    rep.check(
+        {'bind', 'apply_defaults'} <= calls and bound_key, K,
+        'CachedClass.__new__', new.path, new.lineno,
+        'the cache key is built from the arguments bound to the '
+        'constructor\'s signature, defaults applied',
+        'CachedClass.__new__ builds its cache key from the literal '
+        '(args, kwargs) of the call: HGate(), HGate(2) and HGate(radix=2) '
+        'are three instances, and since cached gates are compared by '
+        'identity they are unequal (circuits differing only in that '
+        'spelling differ, GateSet membership fails)',
+        key='literal-key',
+    )
+    # premise of the rule: cached gate classes do rely on identity
+    gates = [
+        k for k in ctx.index.classes.values()
+        if k.path.startswith('bqskit/ir/gates/')
+        and ctx.index.is_subclass(k, 'CachedClass')
+    ]
+    ident = [k for k in gates if ctx.index.lookup_method(k, '__eq__') is None]
+    rep.floor(K, len(ident), 20, 'cached gate classes compared by identity')
